@@ -5,12 +5,14 @@ Theorem C11_cache_sorted : stmt_C11_cache_sorted. Proof. exact C11_cache_sorted_
 Print Assumptions C11_cache_sorted.
 Theorem C11_cache_hit : stmt_C11_cache_hit. Proof. exact C11_cache_hit_proof. Qed.
 Print Assumptions C11_cache_hit.
-Theorem C11_history_independent_partial : stmt_C11_history_independent_partial. Proof. exact C11_history_independent_partial_proof. Qed.
-Print Assumptions C11_history_independent_partial.
-(* open findings: the full statements are refuted on the shipped tables *)
-Theorem C11_crlf_column_refuted : stmt_C11_crlf_column_refuted. Proof. exact C11_crlf_column_refuted_proof. Qed.
-Print Assumptions C11_crlf_column_refuted.
-Theorem C11_crlf_history_refuted : stmt_C11_crlf_history_refuted. Proof. exact C11_crlf_history_refuted_proof. Qed.
-Print Assumptions C11_crlf_history_refuted.
-Theorem C11_full_refuted : stmt_C11_full_refuted. Proof. exact C11_full_refuted_proof. Qed.
-Print Assumptions C11_full_refuted.
+(* the property itself: every text (CR LF pairs included), every tab setting, every history *)
+Theorem C11_history_independent : stmt_C11_history_independent. Proof. exact C11_history_independent_proof. Qed.
+Print Assumptions C11_history_independent.
+(* special cases (the statements that failed before commit 7850d1f of the library) *)
+Theorem C11_single_query : stmt_C11_single_query. Proof. exact C11_single_query_proof. Qed.
+Print Assumptions C11_single_query.
+Theorem C11_query_order_independent : stmt_C11_query_order_independent. Proof. exact C11_query_order_independent_proof. Qed.
+Print Assumptions C11_query_order_independent.
+(* the hypotheses are satisfiable: a history that splits CR LF pairs by a drain and by queries *)
+Theorem C11_example : stmt_C11_example. Proof. exact C11_example_proof. Qed.
+Print Assumptions C11_example.
